@@ -103,3 +103,75 @@ package priorityqueue
 //@   ensures [C12] atomic: result != nil ==> L(queue) == old(L(queue))
 //@   ensures [C06 C11 C12] loaded: jarr_kind(bytes, elemof(queue.heap.list.elements)) == 3 ==> N(queue) == jarr_len(bytes, elemof(queue.heap.list.elements)) && binaryheap.IsPerm(src, sinv, N(queue)) && (forall k :: 0 <= k && k < N(queue) ==> L(queue)[k] == jarr_at(bytes, src[k], elemof(queue.heap.list.elements)))
 //@   ensures [C12] null: jarr_kind(bytes, elemof(queue.heap.list.elements)) == 2 ==> N(queue) == 0
+
+// ---- iterator: delegates to the heap iterator (cursor over positions -1..n, C08); Values() likewise ----
+
+//@ pred ItInv(it) := it != nil && binaryheap.ItInv(it.iterator)
+//@ pred Idx(it) := it.iterator.index
+//@ pred Len(it) := binaryheap.N(it.iterator.heap)
+
+//@ func Queue.Iterator
+//@   requires Inv(queue)
+//@   modifies nothing
+//@   ensures [C08 C17 C18] fresh(result) && fresh(result.iterator) && ItInv(result) && result.iterator.heap == queue.heap && Idx(result) == 0 - 1
+
+//@ func Iterator.Next
+//@   requires ItInv(iterator)
+//@   modifies iterator.iterator.index
+//@   ensures [C08 C17] ItInv(iterator) && Idx(iterator) == min(old(Idx(iterator)) + 1, Len(iterator))
+//@   ensures [C08] result == (0 <= Idx(iterator) && Idx(iterator) < Len(iterator))
+
+//@ func Iterator.Prev
+//@   requires ItInv(iterator)
+//@   modifies iterator.iterator.index
+//@   ensures [C08 C17] ItInv(iterator) && Idx(iterator) == max(old(Idx(iterator)) - 1, 0 - 1)
+//@   ensures [C08] result == (0 <= Idx(iterator) && Idx(iterator) < Len(iterator))
+
+//@ func Iterator.Value
+//@   requires ItInv(iterator) && 0 <= Idx(iterator) && Idx(iterator) < Len(iterator)
+//@   modifies nothing
+//@   ensures [C08 C17 C18] true
+
+//@ func Iterator.Index
+//@   requires ItInv(iterator)
+//@   modifies nothing
+//@   ensures [C08 C17 C18] result == Idx(iterator)
+
+//@ func Iterator.Begin
+//@   requires ItInv(iterator)
+//@   modifies iterator.iterator.index
+//@   ensures [C08 C17] ItInv(iterator) && Idx(iterator) == 0 - 1
+
+//@ func Iterator.End
+//@   requires ItInv(iterator)
+//@   modifies iterator.iterator.index
+//@   ensures [C08 C17] ItInv(iterator) && Idx(iterator) == Len(iterator)
+
+//@ func Iterator.First
+//@   requires ItInv(iterator)
+//@   modifies iterator.iterator.index
+//@   ensures [C08 C17] ItInv(iterator) && Idx(iterator) == 0 && result == (Len(iterator) > 0)
+
+//@ func Iterator.Last
+//@   requires ItInv(iterator)
+//@   modifies iterator.iterator.index
+//@   ensures [C08 C17] ItInv(iterator) && Idx(iterator) == Len(iterator) - 1 && result == (Len(iterator) > 0)
+
+//@ func Iterator.NextTo
+//@   requires ItInv(iterator) && f != nil
+//@   modifies iterator.iterator.index
+//@   ensures [C08 C17] ItInv(iterator)
+//@   ensures [C08] result ==> old(Idx(iterator)) < Idx(iterator) && Idx(iterator) < Len(iterator)
+//@   ensures [C08] !result ==> Idx(iterator) == Len(iterator)
+
+//@ func Iterator.PrevTo
+//@   requires ItInv(iterator) && f != nil
+//@   modifies iterator.iterator.index
+//@   ensures [C08 C17] ItInv(iterator)
+//@   ensures [C08] result ==> 0 <= Idx(iterator) && Idx(iterator) < old(Idx(iterator))
+//@   ensures [C08] !result ==> Idx(iterator) == 0 - 1
+
+//@ func Queue.Values
+//@   requires Inv(queue)
+//@   modifies nothing
+//@   ensures [C15 C16 C17 C18] len(result) == N(queue) && (N(queue) > 0 ==> fresh(arr(result)))
